@@ -167,6 +167,27 @@ func c09Explore(c *Ctx, stream string) {
 			}
 			c09Session(c, "session-real", p, lines, true)
 		}
+		// every report under mean / mean_<type>, on profiles whose count column holds zeros
+		reports := []string{"text", "top", "tree", "traces", "peek .", "dot", "callgrind", "tags", "raw", "topproto", "comments", "proto"}
+		for k := 0; k < c.Budget(36, 1200); k++ {
+			p := c09Profile(r, false)
+			for len(p.SampleType) < 2 {
+				p = c09Profile(r, false)
+			}
+			for j, sm := range p.Sample {
+				if j%2 == 0 && len(sm.Value) > 0 {
+					sm.Value[0] = 0
+				}
+			}
+			if len(p.Sample) == 0 || p.CheckValid() != nil {
+				continue
+			}
+			pre := "mean=1"
+			if k%3 == 1 {
+				pre = "sample_index=" + p.SampleType[len(p.SampleType)-1].Type
+			}
+			c09Session(c, "session-mean", p, []string{"mean=1", pre, reports[k%len(reports)], "top 3"}, true)
+		}
 	case "web":
 		// a profile without sample types never reaches the web handlers: fetchProfiles rejects it
 		// ("empty common sample type list"); the model predicts "error"
